@@ -62,9 +62,15 @@ def kept_ok(st, cx, cid):
     return z3.And(parts)
 
 
+def _out_name(env):
+    """the list of kept clusters, whatever the code calls it (the only list-valued local besides the parameter)"""
+    from engine.symcoll import local_named
+    return local_named(env, "clusters_cleaned", lambda v: isinstance(v, (list, ObjBag)), exclude=("clusters",))
+
+
 def inv(st, env, k, old):
     cx = st.ghost["cx"]
-    bag = ObjBag.ids_of(env.lookup("clusters_cleaned"))
+    bag = ObjBag.ids_of(env.vars[_out_name(env)])
     H0 = cx.H0
     return [
         ("kept-are-visited-members", z3.ForAll([c], z3.Implies(bag[c], member(cx, c, k.t)))),
@@ -81,7 +87,7 @@ def havoc(st, env, old):
     havoc_field(st, "Cluster", "indices")
     havoc_field(st, "Cluster", "_distance_matrix_radii_mic")
     st.n += 1
-    env.vars["clusters_cleaned"] = ObjBag(z3.Const("cleaned!%d" % st.n, z3.ArraySort(I, z3.BoolSort())), cx.seq.cls, CLUSTER_SCHEMA, "Cluster")
+    env.vars[_out_name(env)] = ObjBag(z3.Const("cleaned!%d" % st.n, z3.ArraySort(I, z3.BoolSort())), cx.seq.cls, CLUSTER_SCHEMA, "Cluster")
     for nm in ("cluster", "dbscan_clusters", "largest_indices"):
         env.vars.pop(nm, None)
 
